@@ -432,6 +432,11 @@ Definition check (c : c19case) : list nat :=
       (if forallb (fun b => b) oks && list_eqb (opt_eqb rpc_eqb) read (map Some written) then [] else [2%nat])
   end.
 
+(* model and implementation agree on the case (no reason 1) *)
+Definition agrees (c : c19case) : bool := negb (existsb (Nat.eqb 1) (check c)).
+(* the property predicates hold on the observed history (no reason >= 2) *)
+Definition spec_ok (c : c19case) : bool := negb (existsb (fun r => Nat.leb 2 r) (check c)).
+
 Fixpoint find_bad_from (i : nat) (cs : list c19case) : list (nat * list nat) :=
   match cs with
   | [] => []
